@@ -46,6 +46,13 @@ def fpmTableG (e : R → V) (ofR : R → V) (sqrt : R → R) (m n My Mx : Nat) (
   let αx' : R := axisAlpha (Num.ofInt (Mx : Int)) fdx efl lam dx
   table2G (fun t => e (-t)) My Mx m n αy' αx' (fpmBackShift shy dx fdx) (fpmBackShift shx dx fdx)
     (ofR (sqrt αy' * sqrt αx')) after
+/-- `Model.C05.babinet` as a table: complement of the mask, `fpmTableG` without shift, difference, Lyot stop -/
+def babTableG (e : R → V) (ofR : R → V) (sqrt : R → R) (m n My Mx : Nat) (dx efl lam fdx : R)
+    (lyot mask f : Array (Array V)) : Array (Array V) :=
+  let comp : Array (Array V) := Model.C01.tab2 My Mx fun k l => (Num.ofInt 1 : V) - Model.C01.rd2 mask k l
+  let back := fpmTableG e ofR sqrt m n My Mx dx efl lam fdx (Num.ofInt 0) (Num.ofInt 0) comp f
+  Model.C01.tab2 m n fun j i => Model.C01.rd2 lyot j i * (Model.C01.rd2 f j i - Model.C01.rd2 back j i)
+
 end generic
 
 def table2 (e : Float → C) (m n M N : Nat) (αy αx sy sx : Float) (norm : C) (f : Array (Array C)) : Array (Array C) :=
@@ -82,5 +89,14 @@ def fpmTable (m n My Mx : Nat) (dx efl lam fdx shx shy : Float) (mask f : Array 
 /-- one point straight from `Model.C05.toFpmAndBack` -/
 def fpmPoint (m n My Mx : Nat) (dx efl lam fdx shx shy : Float) (mask f : Array (Array C)) (j i : Nat) : C :=
   toFpmAndBack eF Cx.ofReal Float.sqrt m n My Mx dx efl lam fdx shx shy (fun k l => getC mask k l) (fun a b => getC f a b) j i
+
+/-- model of `Wavefront.babinet` as a table (`Lemmas/C03Exec.lean: babTableG_eq` proves it is `Model.C05.babinet`) -/
+def babTable (m n My Mx : Nat) (dx efl lam fdx : Float) (lyot mask f : Array (Array C)) : Array (Array C) :=
+  babTableG eF Cx.ofReal Float.sqrt m n My Mx dx efl lam fdx lyot mask f
+
+/-- one point straight from `Model.C05.babinet` -/
+def babPoint (m n My Mx : Nat) (dx efl lam fdx : Float) (lyot mask f : Array (Array C)) (j i : Nat) : C :=
+  Model.C05.babinet eF Cx.ofReal Float.sqrt m n My Mx dx efl lam fdx (fun a b => getC lyot a b) (fun k l => getC mask k l)
+    (fun a b => getC f a b) j i
 
 end Model.C03.Exec
